@@ -29,7 +29,7 @@ func (o c12Op) String() string {
 	switch o.Kind {
 	case "E":
 		return fmt.Sprintf("E(%#x)", o.V)
-	case "C", "N", "U":
+	case "C", "N", "U", "Z":
 		return fmt.Sprintf("%s(+%d)", o.Kind, o.Off)
 	case "X":
 		return fmt.Sprintf("X(+%d,%#x)", o.Off, o.V)
@@ -84,6 +84,7 @@ func c12Stream(ops []c12Op, big bool) ([]byte, []c12Exp, *c12Exp, string) {
 	defC := fitmodel.Def{Local: 2, Big: big, Global: mon, Fields: []fitmodel.FieldDef{{Num: 1, Size: 2, Base: fitmodel.Uint16}}}
 	defN := fitmodel.Def{Local: 3, Big: big, Global: 49, Fields: []fitmodel.FieldDef{{Num: 0, Size: 2, Base: fitmodel.Uint16}}}
 	defU := fitmodel.Def{Local: 0, Big: big, Global: 0xFF00, Fields: []fitmodel.FieldDef{{Num: 1, Size: 2, Base: fitmodel.Uint16}}}
+	defZ := fitmodel.Def{Local: 0, Big: big, Global: mon}
 	defL := fitmodel.Def{Local: 4, Big: big, Global: mon, Fields: []fitmodel.FieldDef{{Num: 11, Size: 4, Base: fitmodel.Uint32}, {Num: 1, Size: 2, Base: fitmodel.Uint16}}}
 	defB := fitmodel.Def{Local: 5, Big: big, Global: mon, Fields: []fitmodel.FieldDef{{Num: 253, Size: 4, Base: fitmodel.Uint32}, {Num: 11, Size: 4, Base: fitmodel.Uint32}, {Num: 1, Size: 2, Base: fitmodel.Uint16}}}
 	recs := fitmodel.FileIdRecords(0, byte(fit.FileTypeMonitoringB))
@@ -158,12 +159,18 @@ func c12Stream(ops []c12Op, big bool) ([]byte, []c12Exp, *c12Exp, string) {
 			compressed(op.Off, nil)
 			explicit(op.V, &e)
 			exps = append(exps, e)
+		case "Z":
+			// zero-field definition of monitoring on local 0 (re-defined right here), compressed record = header only
+			recs = append(recs, defZ.Bytes(), fitmodel.Compressed(0, op.Off, nil))
+			e.id = 0xFFFF
+			compressed(op.Off, &e)
+			exps = append(exps, e)
 		case "N":
 			recs = append(recs, fitmodel.Compressed(3, op.Off, u16(id)))
 			compressed(op.Off, nil)
 			fc = &c12Exp{id: id}
 		case "U":
-			recs = append(recs, fitmodel.Compressed(0, op.Off, u16(id)))
+			recs = append(recs, defU.Bytes(), fitmodel.Compressed(0, op.Off, u16(id)))
 			compressed(op.Off, nil)
 		case "L":
 			recs = append(recs, fitmodel.Data(4, fitmodel.Concat(u32(op.V), u16(id))))
@@ -262,7 +269,7 @@ func init() {
 	vx.Register(&vx.Prop{
 		ID:    "C12",
 		Level: "model_checking",
-		Rule: "timestamp machine (reference or none; 5-bit offset = reference mod 32) explored on the real decoder: all words of length <=4 (quick) / <=5 (thorough) over {explicit timestamp in 8 values incl. invalid, 2^32-2, 0x10000000; compressed record with offsets {0,1,15,16,30,31}; compressed record carrying an explicit timestamp; compressed record of a message without timestamp field; compressed record of an unknown message; local timestamp without/with explicit timestamp in the same message} in a monitoring_b file, both byte orders; all 32x32 offset pairs after each of 6 references; runs of 70 compressed records (4 stride patterns); a non-253 date_time field that must not re-base (activity file). " +
+		Rule: "timestamp machine (reference or none; 5-bit offset = reference mod 32) explored on the real decoder: all words of length <=4 (quick) / <=5 (thorough) over {explicit timestamp in 8 values incl. invalid, 2^32-2, 0x10000000; compressed record with offsets {0,1,15,16,30,31}; compressed record carrying an explicit timestamp; compressed record of a message without timestamp field; compressed record of an unknown message; compressed record under a zero-field definition; local timestamp without/with explicit timestamp in the same message} in a monitoring_b file, both byte orders; all 32x32 offset pairs after each of 6 references; runs of 70 compressed records (4 stride patterns); a non-253 date_time field that must not re-base (activity file). " +
 			"Oracle: the property's timestamp rules; states = distinct model states (has reference, reference value) reached; transitions = records applied; traces = streams decoded",
 		Assumptions: []string{"reference value 0 and references below 0x10000000 interacting with local time are outside the alphabet (the property is silent)", "a compressed record with no preceding timestamp carries no timestamp demand"},
 		Run:         runC12,
@@ -291,6 +298,7 @@ func runC12(w *vx.W) {
 		c12Op{Kind: "X", Off: 7, V: T + 100},
 		c12Op{Kind: "N", Off: 20},
 		c12Op{Kind: "U", Off: 9},
+		c12Op{Kind: "Z", Off: 13},
 		c12Op{Kind: "L", V: T + 3600},
 		c12Op{Kind: "L", V: T - 7200 + 5},
 		c12Op{Kind: "B", V: T + 64, V2: T + 64 + 7200},
@@ -334,7 +342,7 @@ func runC12(w *vx.W) {
 				if op.V != 0xFFFFFFFF {
 					m.has, m.ref = true, op.V
 				}
-			case "C", "N", "U":
+			case "C", "N", "U", "Z":
 				if m.has {
 					m.ref = advance(m.ref, op.Off)
 				}
